@@ -170,6 +170,9 @@ func runC06Store(p histPlan, c *stats.Case) error {
 			}
 			before := snap
 			perr := r.put(id, valSpec{Len: op.Len, Seed: op.Seed}.bytes())
+			// a pruning pass starts a compaction of the whole key range in the background: what the store retains is
+			// judged once that has run (a tombstone that only hides an item until the next compaction does not remove it)
+			waitPruneIdle()
 			after, err := r.scan(false)
 			if err != nil {
 				return err
